@@ -122,8 +122,11 @@ func GenCase(r *rand.Rand, prop string, thorough bool) *Case {
 		c.Layout = pick(r, []string{world.LayoutGopath, world.LayoutGopathVendor, world.LayoutModVendor})
 	}
 	libv := "lib_ok"
-	if r.IntN(5) == 0 {
+	switch r.IntN(6) {
+	case 0:
 		libv = "lib_badset"
+	case 1, 2:
+		libv = "lib_inj"
 	}
 	c.Pkgs = append(c.Pkgs, PkgInit{Name: "lib", Variant: libv, N: 1 + r.IntN(9)})
 	np := 2 + r.IntN(3)
@@ -157,8 +160,11 @@ func GenCase(r *rand.Rand, prop string, thorough bool) *Case {
 			p := pick(r, names)
 			if p == "lib" {
 				v := "lib_ok"
-				if r.IntN(3) == 0 {
+				switch r.IntN(4) {
+				case 0:
 					v = "lib_badset"
+				case 1:
+					v = "lib_inj"
 				}
 				c.Steps = append(c.Steps, Step{Op: "setvariant", Pkg: p, Variant: v, N: 1 + r.IntN(9)})
 				cur[p] = v
@@ -250,6 +256,10 @@ func genCmd(r *rand.Rand, prop string, names, nonlib []string, cur map[string]st
 			k := 1 + r.IntN(len(names))
 			for _, i := range perm[:k] {
 				st.Patterns = append(st.Patterns, "./"+names[i])
+			}
+			if r.IntN(6) == 0 {
+				// a pattern that matches nothing: the whole invocation fails to load
+				st.Patterns = append(st.Patterns, "./nosuch")
 			}
 		case 5:
 			st.Patterns = []string{"example.com/..."}
